@@ -172,6 +172,6 @@ def verdict(pid, found):
         print("VIOLATION property=%s replay=%s" % (pid, path))
         print("  what: %s" % f["what"])
         rc = 1
-        if len(reported) >= 5:
+        if len(reported) >= int(os.environ.get("VERIF_MAX_REPORT", "5")):
             break
     return rc
